@@ -51,6 +51,32 @@ def gen_call(rng, case, kind):
 
 def gen_case(rng):
     case = pc.gen_config(rng, FLAVOURS, return_as=("list", "list", "generator", "generator_unordered"))
+    if rng.random() < 0.07 and _supports_timeout(case):
+        # tight time-outs: every task takes d, the caller's timeout is about d -- whether a result or the deadline wins is
+        # decided by the schedule; either way the call returns everything or raises TimeoutError, never a part of it
+        d = rng.choice([0.05, 0.1, 0.3])
+        case["calls"] = []
+        for _ in range(rng.choice([1, 2, 3])):
+            n = rng.randint(1, 10)
+            case["calls"].append({"n": n, "dur": [d] * n, "kind": "tight"})
+        case["timeout"] = round(d * rng.choice([0.9, 1.0, 1.0, 1.1]) + rng.choice([0.0, 0.005, 0.01, 0.02]), 4)
+        case["strategy"] = ds.draw_strategy(rng)        # (no bound on simulated time is judged here: slow-node jumps and stalls stay)
+        case["sched_seed"] = rng.randrange(1 << 31)
+        return case
+    if rng.random() < 0.04 and _supports_timeout(case) and case["flavour"] != "M":
+        # results keep arriving every 50 ms while ONE task takes longer than the timeout (and completes): with
+        # generator_unordered no wait for "the next result" ever exceeds the timeout, so TimeoutError would be spurious
+        case["return_as"] = "generator_unordered"
+        case["n_jobs"] = 2; case["batch_size"] = 1; case["pre_dispatch"] = "2*n_jobs"
+        m = rng.randint(28, 36)
+        case["calls"] = [{"n": m + 1, "dur": [1.0] + [0.05] * m, "kind": "steady"}]
+        case["timeout"] = rng.choice([0.3, 0.4, 0.6])
+        case["strategy"] = ds.draw_strategy(rng)
+        case["strategy"].pop("p_jump", None)
+        if case["strategy"].get("novel"):
+            case["strategy"]["novel_sleep"] = False
+        case["sched_seed"] = rng.randrange(1 << 31)
+        return case
     kinds = []
     ncalls = rng.choice([1, 2, 2, 3, 3, 4])
     for c in range(ncalls):
@@ -116,6 +142,38 @@ def oracle(w, s):
     for c, call in enumerate(case["calls"]):
         rec = w.calls[c] if c < len(w.calls) else None
         ordered = case.get("return_as") != "generator_unordered"
+        if call.get("kind") == "steady" and case.get("return_as") == "generator_unordered":
+            o = rec["outcome"] if rec else None
+            if o is None:
+                return V("no_outcome", "call %d has no outcome" % c)
+            if o["kind"] == "exc":
+                return V("spurious_timeout" if o["type"] == "TimeoutError" else "foreign_exception",
+                         "call %d: results arrived every 50 ms, one task took 1 s (timeout %.1f s): raised %s%s after %d results" % (
+                             c, case["timeout"], o["type"], o["args"], len(rec["values"])), type=o["type"])
+            v = pc.check_ok_call(w, c, False)
+            if v:
+                return v
+            w.probes["steady_results_with_one_task_beyond_the_timeout"] += 1
+            continue
+        if call.get("kind") == "tight":
+            if rec is None or rec["outcome"] is None:
+                return V("no_outcome", "call %d has no outcome" % c)
+            o = rec["outcome"]
+            if o["kind"] == "exc" and o["type"] == "TimeoutError":
+                w.probes["tight_timeout_fired"] += 1
+            elif o["kind"] == "exc":
+                return V("foreign_exception", "call %d (timeout %.3f, tasks of %.2f s) raised %s%s" % (c, case["timeout"], call["dur"][0], o["type"], o["args"]),
+                         type=o["type"], tight_timeout=True)
+            else:
+                w.probes["tight_timeout_completed"] += 1
+                v = pc.check_ok_call(w, c, ordered)
+                if v:
+                    v["sig"]["tight_timeout"] = True
+                    return v
+            v = pc.check_leftovers(w, c)
+            if v:
+                return v
+            continue
         if not call_has_fault(call):
             v = pc.check_ok_call(w, c, ordered)
             if v:
